@@ -45,7 +45,8 @@ def check_closure_idioms(ctx, extra_roots=()):
                          check_extent_follows_array)
     from .perm import (check_request_order, check_unsort_pairs,
                        check_sorted_results_unsorted,
-                       check_parallel_windows_in_step)
+                       check_parallel_windows_in_step,
+                       check_permuted_rows_not_windowed)
     from .nodekeys import check_memo_keys, check_memo_of_outside_state
     from .capacity import (check_index_dtype, check_borrowed_dtype,
                            check_sum_capacity, check_bound_kind,
@@ -90,6 +91,7 @@ def check_closure_idioms(ctx, extra_roots=()):
                      check_whole_axis, check_request_order,
                      check_unsort_pairs, check_sorted_results_unsorted,
                      check_parallel_windows_in_step,
+                     check_permuted_rows_not_windowed,
                      check_memo_keys, check_memo_of_outside_state,
                      check_keywords_not_crossed,
                      check_sibling_defaults_bound,
@@ -115,17 +117,22 @@ def check_closure_idioms(ctx, extra_roots=()):
     # need no context judge them too
     inside = set(closure)
     helpers = set()
-    for q in closure:
+    frontier = list(closure)
+    while frontier:
+        q = frontier.pop()
         for t in ctx.cg.edges.get(q, ()):
             f = db.functions.get(t)
-            if f is not None and t not in inside \
-                    and f.module.short == 'utils.utils':
+            if f is not None and t not in inside and t not in helpers \
+                    and f.module.short in ('utils.utils',
+                                           'utils.h5_utils'):
                 helpers.add(t)
+                frontier.append(t)      # helpers of helpers
     for q in sorted(helpers):
         fi = db.functions[q]
         for rule in (check_span_contiguity, check_request_order,
                      check_unsort_pairs, check_sorted_results_unsorted,
-                     check_truthy_position, check_partially_empty_return):
+                     check_truthy_position, check_partially_empty_return,
+                     check_whole_axis, check_tiling):
             try:
                 rule(ctx, fi)
             except AnalysisError:
